@@ -4,11 +4,11 @@
 //@@ include spec/ranges.rs
 verus! {
 /// the list stored under `key`, if the key holds a list
-spec fn list_at(s: DatabaseShard, key: Vec<u8>) -> Option<Seq<Vec<u8>>> {
-    if s.data@.contains_key(key) { match s.data@[key].value { Value::List(l) => Some(l@), _ => None } } else { None }
+spec fn list_at(s: SV, key: Vec<u8>) -> Option<Seq<Vec<u8>>> {
+    if s.data.contains_key(key) { match s.data[key].value { Value::List(l) => Some(l@), _ => None } } else { None }
 }
-spec fn holds_non_list(s: DatabaseShard, key: Vec<u8>) -> bool {
-    s.data@.contains_key(key) && !(s.data@[key].value is List)
+spec fn holds_non_list(s: SV, key: Vec<u8>) -> bool {
+    s.data.contains_key(key) && !(s.data[key].value is List)
 }
 
 impl StorageEngine {
@@ -26,17 +26,17 @@ impl StorageEngine {
     fn lpush(&self, shard_guard: &mut DatabaseShard, key: Key, elements: Vec<Vec<u8>>) -> (r: Result<usize>)
         requires elements@.len() > 0,     // arity check of the handler (unverified surroundings)
         ensures
-            coll_ok(*old(shard_guard)) ==> coll_ok(*final(shard_guard)),
-            step_ok(*old(shard_guard), *final(shard_guard), key),
-            holds_non_list(*old(shard_guard), key) ==> r is Err && unchanged(*old(shard_guard), *final(shard_guard)),
+            coll_ok(eff(*old(shard_guard), key)) ==> coll_ok(sv(*final(shard_guard))),
+            step_ok(eff(*old(shard_guard), key), sv(*final(shard_guard)), key),
+            holds_non_list(eff(*old(shard_guard), key), key) ==> r is Err && unchanged(eff(*old(shard_guard), key), sv(*final(shard_guard))),
             // existing list: elements go to the head one after another; TTL survives
-            list_at(*old(shard_guard), key) matches Some(l) ==> r == Ok::<usize, FerrousError>((l.len() + elements@.len()) as usize)
-                && list_at(*final(shard_guard), key) == Some(spec_lpush(l, elements@))
-                && final(shard_guard).data@[key].metadata == old(shard_guard).data@[key].metadata,
+            list_at(eff(*old(shard_guard), key), key) matches Some(l) ==> r == Ok::<usize, FerrousError>((l.len() + elements@.len()) as usize)
+                && list_at(sv(*final(shard_guard)), key) == Some(spec_lpush(l, elements@))
+                && sv(*final(shard_guard)).data[key].metadata == eff(*old(shard_guard), key).data[key].metadata,
             // absent: a new list without TTL
-            !old(shard_guard).data@.contains_key(key) ==> r == Ok::<usize, FerrousError>(elements@.len() as usize)
-                && list_at(*final(shard_guard), key) == Some(spec_lpush(Seq::<Vec<u8>>::empty(), elements@))
-                && final(shard_guard).data@[key].metadata.expires_at is None,
+            !eff(*old(shard_guard), key).data.contains_key(key) ==> r == Ok::<usize, FerrousError>(elements@.len() as usize)
+                && list_at(sv(*final(shard_guard)), key) == Some(spec_lpush(Seq::<Vec<u8>>::empty(), elements@))
+                && sv(*final(shard_guard)).data[key].metadata.expires_at is None,
 //@@ body
 //@@ end
 
@@ -54,15 +54,15 @@ impl StorageEngine {
     fn rpush(&self, shard_guard: &mut DatabaseShard, key: Key, elements: Vec<Vec<u8>>) -> (r: Result<usize>)
         requires elements@.len() > 0,     // arity check of the handler (unverified surroundings)
         ensures
-            coll_ok(*old(shard_guard)) ==> coll_ok(*final(shard_guard)),
-            step_ok(*old(shard_guard), *final(shard_guard), key),
-            holds_non_list(*old(shard_guard), key) ==> r is Err && unchanged(*old(shard_guard), *final(shard_guard)),
-            list_at(*old(shard_guard), key) matches Some(l) ==> r == Ok::<usize, FerrousError>((l.len() + elements@.len()) as usize)
-                && list_at(*final(shard_guard), key) == Some(spec_rpush(l, elements@))
-                && final(shard_guard).data@[key].metadata == old(shard_guard).data@[key].metadata,
-            !old(shard_guard).data@.contains_key(key) ==> r == Ok::<usize, FerrousError>(elements@.len() as usize)
-                && list_at(*final(shard_guard), key) == Some(spec_rpush(Seq::<Vec<u8>>::empty(), elements@))
-                && final(shard_guard).data@[key].metadata.expires_at is None,
+            coll_ok(eff(*old(shard_guard), key)) ==> coll_ok(sv(*final(shard_guard))),
+            step_ok(eff(*old(shard_guard), key), sv(*final(shard_guard)), key),
+            holds_non_list(eff(*old(shard_guard), key), key) ==> r is Err && unchanged(eff(*old(shard_guard), key), sv(*final(shard_guard))),
+            list_at(eff(*old(shard_guard), key), key) matches Some(l) ==> r == Ok::<usize, FerrousError>((l.len() + elements@.len()) as usize)
+                && list_at(sv(*final(shard_guard)), key) == Some(spec_rpush(l, elements@))
+                && sv(*final(shard_guard)).data[key].metadata == eff(*old(shard_guard), key).data[key].metadata,
+            !eff(*old(shard_guard), key).data.contains_key(key) ==> r == Ok::<usize, FerrousError>(elements@.len() as usize)
+                && list_at(sv(*final(shard_guard)), key) == Some(spec_rpush(Seq::<Vec<u8>>::empty(), elements@))
+                && sv(*final(shard_guard)).data[key].metadata.expires_at is None,
 //@@ body
 //@@ end
 
@@ -70,17 +70,17 @@ impl StorageEngine {
 //@@   params drop "db: DatabaseIndex" add "shard_guard: &mut DatabaseShard"
 //@@   rewrite R2
     fn lpop(&self, shard_guard: &mut DatabaseShard, key: &[u8]) -> (r: Result<Option<Vec<u8>>>)
-        requires coll_ok(*old(shard_guard)),
+        requires coll_ok(eff(*old(shard_guard), key_of(key@))),
         ensures
-            coll_ok(*final(shard_guard)),
-            step_ok(*old(shard_guard), *final(shard_guard), key_of(key@)),
-            holds_non_list(*old(shard_guard), key_of(key@)) ==> r is Err && unchanged(*old(shard_guard), *final(shard_guard)),
-            !old(shard_guard).data@.contains_key(key_of(key@)) ==> r == Ok::<Option<Vec<u8>>, FerrousError>(None) && unchanged(*old(shard_guard), *final(shard_guard)),
+            coll_ok(sv(*final(shard_guard))),
+            step_ok(eff(*old(shard_guard), key_of(key@)), sv(*final(shard_guard)), key_of(key@)),
+            holds_non_list(eff(*old(shard_guard), key_of(key@)), key_of(key@)) ==> r is Err && unchanged(eff(*old(shard_guard), key_of(key@)), sv(*final(shard_guard))),
+            !eff(*old(shard_guard), key_of(key@)).data.contains_key(key_of(key@)) ==> r == Ok::<Option<Vec<u8>>, FerrousError>(None) && unchanged(eff(*old(shard_guard), key_of(key@)), sv(*final(shard_guard))),
             // the head is returned; the rest keeps its order; a list that becomes empty ceases to exist as a key
-            list_at(*old(shard_guard), key_of(key@)) matches Some(l) ==> l.len() > 0 ==> r == Ok::<Option<Vec<u8>>, FerrousError>(Some(l[0]))
-                && (if l.len() == 1 { !final(shard_guard).data@.contains_key(key_of(key@)) }
-                    else { list_at(*final(shard_guard), key_of(key@)) == Some(l.subrange(1, l.len() as int))
-                           && final(shard_guard).data@[key_of(key@)].metadata == old(shard_guard).data@[key_of(key@)].metadata }),
+            list_at(eff(*old(shard_guard), key_of(key@)), key_of(key@)) matches Some(l) ==> l.len() > 0 ==> r == Ok::<Option<Vec<u8>>, FerrousError>(Some(l[0]))
+                && (if l.len() == 1 { !sv(*final(shard_guard)).data.contains_key(key_of(key@)) }
+                    else { list_at(sv(*final(shard_guard)), key_of(key@)) == Some(l.subrange(1, l.len() as int))
+                           && sv(*final(shard_guard)).data[key_of(key@)].metadata == eff(*old(shard_guard), key_of(key@)).data[key_of(key@)].metadata }),
 //@@ body
 //@@ end
 
@@ -88,16 +88,16 @@ impl StorageEngine {
 //@@   params drop "db: DatabaseIndex" add "shard_guard: &mut DatabaseShard"
 //@@   rewrite R2
     fn rpop(&self, shard_guard: &mut DatabaseShard, key: &[u8]) -> (r: Result<Option<Vec<u8>>>)
-        requires coll_ok(*old(shard_guard)),
+        requires coll_ok(eff(*old(shard_guard), key_of(key@))),
         ensures
-            coll_ok(*final(shard_guard)),
-            step_ok(*old(shard_guard), *final(shard_guard), key_of(key@)),
-            holds_non_list(*old(shard_guard), key_of(key@)) ==> r is Err && unchanged(*old(shard_guard), *final(shard_guard)),
-            !old(shard_guard).data@.contains_key(key_of(key@)) ==> r == Ok::<Option<Vec<u8>>, FerrousError>(None) && unchanged(*old(shard_guard), *final(shard_guard)),
-            list_at(*old(shard_guard), key_of(key@)) matches Some(l) ==> l.len() > 0 ==> r == Ok::<Option<Vec<u8>>, FerrousError>(Some(l[l.len() - 1]))
-                && (if l.len() == 1 { !final(shard_guard).data@.contains_key(key_of(key@)) }
-                    else { list_at(*final(shard_guard), key_of(key@)) == Some(l.subrange(0, l.len() - 1))
-                           && final(shard_guard).data@[key_of(key@)].metadata == old(shard_guard).data@[key_of(key@)].metadata }),
+            coll_ok(sv(*final(shard_guard))),
+            step_ok(eff(*old(shard_guard), key_of(key@)), sv(*final(shard_guard)), key_of(key@)),
+            holds_non_list(eff(*old(shard_guard), key_of(key@)), key_of(key@)) ==> r is Err && unchanged(eff(*old(shard_guard), key_of(key@)), sv(*final(shard_guard))),
+            !eff(*old(shard_guard), key_of(key@)).data.contains_key(key_of(key@)) ==> r == Ok::<Option<Vec<u8>>, FerrousError>(None) && unchanged(eff(*old(shard_guard), key_of(key@)), sv(*final(shard_guard))),
+            list_at(eff(*old(shard_guard), key_of(key@)), key_of(key@)) matches Some(l) ==> l.len() > 0 ==> r == Ok::<Option<Vec<u8>>, FerrousError>(Some(l[l.len() - 1]))
+                && (if l.len() == 1 { !sv(*final(shard_guard)).data.contains_key(key_of(key@)) }
+                    else { list_at(sv(*final(shard_guard)), key_of(key@)) == Some(l.subrange(0, l.len() - 1))
+                           && sv(*final(shard_guard)).data[key_of(key@)].metadata == eff(*old(shard_guard), key_of(key@)).data[key_of(key@)].metadata }),
 //@@ body
 //@@ end
 
@@ -106,10 +106,10 @@ impl StorageEngine {
 //@@   rewrite R2
     fn llen(&self, shard_guard: &mut DatabaseShard, key: &[u8]) -> (r: Result<usize>)
         ensures
-            unchanged(*old(shard_guard), *final(shard_guard)),
-            holds_non_list(*old(shard_guard), key_of(key@)) ==> r is Err,
-            !old(shard_guard).data@.contains_key(key_of(key@)) ==> r == Ok::<usize, FerrousError>(0),
-            list_at(*old(shard_guard), key_of(key@)) matches Some(l) ==> r == Ok::<usize, FerrousError>(l.len() as usize),
+            unchanged(eff(*old(shard_guard), key_of(key@)), sv(*final(shard_guard))),
+            holds_non_list(eff(*old(shard_guard), key_of(key@)), key_of(key@)) ==> r is Err,
+            !eff(*old(shard_guard), key_of(key@)).data.contains_key(key_of(key@)) ==> r == Ok::<usize, FerrousError>(0),
+            list_at(eff(*old(shard_guard), key_of(key@)), key_of(key@)) matches Some(l) ==> r == Ok::<usize, FerrousError>(l.len() as usize),
 //@@ body
 //@@ end
 
@@ -118,16 +118,16 @@ impl StorageEngine {
 //@@   rewrite R2
     fn lset(&self, shard_guard: &mut DatabaseShard, key: Key, index: isize, value: Vec<u8>) -> (r: Result<()>)
         ensures
-            coll_ok(*old(shard_guard)) ==> coll_ok(*final(shard_guard)),
-            step_ok(*old(shard_guard), *final(shard_guard), key),
+            coll_ok(eff(*old(shard_guard), key)) ==> coll_ok(sv(*final(shard_guard))),
+            step_ok(eff(*old(shard_guard), key), sv(*final(shard_guard)), key),
             // refused (no such key, wrong type, index out of range): nothing changes
-            r is Err ==> unchanged(*old(shard_guard), *final(shard_guard)),
-            !old(shard_guard).data@.contains_key(key) ==> r is Err,
-            holds_non_list(*old(shard_guard), key) ==> r is Err,
-            list_at(*old(shard_guard), key) matches Some(l) ==> (match spec_index(l.len() as int, index as int) {
+            r is Err ==> unchanged(eff(*old(shard_guard), key), sv(*final(shard_guard))),
+            !eff(*old(shard_guard), key).data.contains_key(key) ==> r is Err,
+            holds_non_list(eff(*old(shard_guard), key), key) ==> r is Err,
+            list_at(eff(*old(shard_guard), key), key) matches Some(l) ==> (match spec_index(l.len() as int, index as int) {
                 None => r is Err,
-                Some(i) => r is Ok && list_at(*final(shard_guard), key) == Some(l.update(i, value))
-                    && final(shard_guard).data@[key].metadata == old(shard_guard).data@[key].metadata,
+                Some(i) => r is Ok && list_at(sv(*final(shard_guard)), key) == Some(l.update(i, value))
+                    && sv(*final(shard_guard)).data[key].metadata == eff(*old(shard_guard), key).data[key].metadata,
             }),
 //@@ body
 //@@ end
